@@ -30,7 +30,7 @@ Proof. reflexivity. Qed.
 (* run the next statement of a closed prefix *)
 Ltac STEP :=
   rewrite run_stmts_cons;
-  match goal with |- context [seq_out (exec_stmt ?a ?b ?c ?d ?e ?f) _] => RUNF (exec_stmt a b c d e f) end;
+  match goal with |- context [seq_out (exec_stmt ?t ?a ?es ?b ?c ?d ?e ?f) _] => RUNF (exec_stmt t a es b c d e f) end;
   cbn [seq_out bind fst snd].
 
 
